@@ -115,7 +115,8 @@ pub fn finish_sweep(prop: &mut dyn Prop, tier: Tier, rr: &RunResult) -> i32 {
         // determinism: replay the first occurrence in a fresh process; the signature must reproduce
         let (again, desc) = crate::runner::replay_in_subprocess(&id, tier, *idx).unwrap_or_else(|e| (format!("replay-error:{}", e), None));
         let crash_like = sig.starts_with("killed-by-signal") || sig == "hang" || sig == "huge-allocation" || sig.starts_with("exit-");
-        let mut reproduced = &again == sig || (crash_like && again.starts_with("crash:"));
+        // (a request of >= 512 MiB ends the worker on the spot; the replay process lets it through and the memory rule names it)
+        let mut reproduced = &again == sig || (crash_like && again.starts_with("crash:")) || (sig == "huge-allocation" && again == "memory");
         // not reproduced from a fresh process: does it depend on the cases the worker executed before it?
         let mut history: Option<Vec<u64>> = None;
         if !reproduced && !crash_like {
